@@ -1200,6 +1200,11 @@ func SplitBMP(data []byte, atEOF bool) (advance int, token []byte, err error) {
 	if err = tmpHdr.DecodeFromBytes(data[:BMP_HEADER_SIZE]); err != nil {
 		return 0, nil, nil
 	}
+	if tmpHdr.Length < BMP_HEADER_SIZE {
+		// shorter than its own header: no message to hand out, and nothing
+		// to advance by
+		return 0, nil, fmt.Errorf("invalid BMP message length %d", tmpHdr.Length)
+	}
 	if len(data) < int(tmpHdr.Length) {
 		return 0, nil, nil
 	}
